@@ -143,7 +143,17 @@ func TestVerif_C12_TecdsaDkgStates(t *testing.T) {
 				}
 				return p, p.Type(), ok, tag
 			},
-			receive: receive,
+			receive:  receive,
+			register: RegisterUnmarshallers,
+			ident: func(m interface{}) string {
+				if v, ok := m.(*resultSignatureMessage); ok {
+					return fmt.Sprintf("%s/%d/%q/%x", v.Type(), v.senderID, v.sessionID, v.publicKey[:8])
+				}
+				if v, ok := m.(message); ok {
+					return fmt.Sprintf("%s/%d/%q", v.Type(), v.SenderID(), v.SessionID())
+				}
+				return fmt.Sprintf("%T", m)
+			},
 			stored: func() map[int][]interface{} {
 				out := map[int][]interface{}{}
 				for k, typ := range c12DkgTypes {
